@@ -31,7 +31,7 @@ def shards(tier, seed):
     if tier == "quick":
         n_sh, n, budget = 8, 14, 50
     else:
-        n_sh, n, budget = 16, 70, 500
+        n_sh, n, budget = 16, 400, 500
     return [{"name": f"miso{i}", "threads": 2, "timeout": budget * 4 + 400,
              "params": {"seed": seed, "shard": i, "n": n, "budget_s": budget}}
             for i in range(n_sh)]
